@@ -26,7 +26,9 @@ func readRune(r io.Reader, remains []byte, b int) ([]rune, []byte, error) {
 	buf := append(remains, p[:t]...)
 	for len(buf) > 0 {
 		ru, size := utf8.DecodeRune(buf)
-		if ru == utf8.RuneError {
+		// size <= 1 with RuneError means an invalid or incomplete sequence;
+		// a well-formed U+FFFD (size 3) is an ordinary character.
+		if ru == utf8.RuneError && size <= 1 {
 			return rs, buf, nil
 		}
 
